@@ -1,10 +1,12 @@
 use crate::core::{Ctx, Verdict};
 use serde_json::Value;
 
+pub mod c01;
 pub mod c11;
 
 pub fn run(ctx: &'static Ctx) {
     match ctx.property.as_str() {
+        "C01" => c01::run(ctx),
         "C11" => c11::run(ctx),
         p => crate::core::machinery_panic(&format!("no driver for {}", p)),
     }
@@ -29,6 +31,7 @@ pub fn replay(prop: &str, case: &Value) -> Verdict {
         }
     }
     match prop {
+        "C01" => c01::replay(case),
         "C11" => c11::replay(case),
         p => crate::core::machinery_panic(&format!("no replay for {}", p)),
     }
